@@ -27,6 +27,7 @@ type flowCase struct {
 	Cores    int
 	ExtraArg []string
 	Tweak    func(*pgen.Spec)
+	SlowOne  int // >0: one stage call (chosen by seed) finishes this many ms late
 	Timeout  time.Duration
 	Reattach bool // run mrp a second time on the completed pipestance and re-check outs/
 	Template int // 0 = random program, k>0 = pgen.Template(k-1)
@@ -43,7 +44,7 @@ type flowResult struct {
 	dir     string
 	races   []vrun.RaceReport
 	sched   string
-	reattachFindings []vmon.Finding
+	partial bool
 	vdr     vmon.VdrStats
 }
 
@@ -77,6 +78,16 @@ func runFlowCase(c *vf.Ctx, fc *flowCase) *flowResult {
 		if fc.Tweak != nil {
 			fc.Tweak(s)
 		}
+		if fc.SlowOne > 0 {
+			if paths := vmon.StageCallPaths(p); len(paths) > 0 {
+				ks := paths
+				k := ks[0] // templates: the first call is the producer of interest
+				if fc.Template == 0 {
+					k = ks[pgen.NewHashRng("slow", fmt.Sprint(fc.Seed)).Intn(len(ks))]
+				}
+				s.Rules = append(s.Rules, pgen.Rule{JobPrefix: k + "/", DelayAfterMs: fc.SlowOne})
+			}
+		}
 	})
 	if err != nil {
 		res.rejected = "harness: " + err.Error()
@@ -91,9 +102,13 @@ func runFlowCase(c *vf.Ctx, fc *flowCase) *flowResult {
 	args := []string{"--vdrmode=" + fc.Vdr, fmt.Sprintf("--localcores=%d", cores), "--localmem=16", "--autoretry=0"}
 	args = append(args, fc.ExtraArg...)
 	res.run = cs.Run(vrun.RunOpts{Race: fc.Race, Args: args, Seed: fc.Seed, Delays: fc.Delays, Inventory: true,
-		Timeout: pickTimeout(fc.Timeout)})
+		Timeout: pickTimeout(fc.Timeout), StallLoops: 25})
 	if res.run.TimedOut {
 		cs.KillAll()
+		// the ordering monitor is still meaningful on the partial event log
+		res.obs = vmon.Collect(cs, vmon.StageCallPaths(p))
+		res.partial = true
+		res.model, res.report = vmon.Analyze(res.obs, p)
 		return res
 	}
 	res.obs = vmon.Collect(cs, vmon.StageCallPaths(p))
@@ -204,7 +219,17 @@ func flowCampaign(c *vf.Ctx, prop string, cases []*flowCase, nontrivial func(*fl
 		}
 		c.Eval(1)
 		if res.run.TimedOut {
-			c.Inconclusive("watchdog")
+			if res.run.Stalled {
+				c.Inconclusive("pipestance stalled (no state change for 25 run-loop iterations)")
+			} else {
+				c.Inconclusive("watchdog")
+			}
+			if prop == "C02" && res.report != nil {
+				// start-before-end observations do not depend on the run finishing
+				for _, f := range res.report.For("C02") {
+					c.Violate(prop+":"+f.Sig, f.What+" (observed before the pipestance stalled)", replayOf(res, f))
+				}
+			}
 			out := res.run.Output
 			if i := strings.Index(out, "SIGQUIT"); i > 0 {
 				out = out[:i]
@@ -437,7 +462,8 @@ func init() {
 				seed := c.Seed*1000003 + 500000 + int64(i)
 				cases = append(cases, &flowCase{Index: i, Seed: seed, Cfg: cfg, Vdr: "disable",
 					DelayMs: []int{60, 200, 400}[i%3], Delays: hook[i%len(hook)],
-					Cores: []int{2, 4, 8}[i%3], Race: !c.Quick() && i%4 == 0, Template: tmplFor(i)})
+					Cores: []int{2, 4, 8}[i%3], Race: !c.Quick() && i%4 == 0, Template: tmplFor(i),
+					SlowOne: map[bool]int{true: 500}[tmplFor(i) > 0 || (i/2)%2 == 1]})
 			}
 			return cases
 		},
@@ -460,7 +486,7 @@ func init() {
 				big := i%4 == 3
 				cases = append(cases, &flowCase{Index: i, Seed: seed, Cfg: cfg, Vdr: "disable",
 					DelayMs: []int{0, 40}[i%2], Delays: hook[i%len(hook)], Race: !c.Quick() && i%4 == 0,
-					Template: tmplFor(i),
+					Template: tmplFor(i), SlowOne: map[bool]int{true: 400}[tmplFor(i) > 0 || (i/2)%2 == 1],
 					Tweak: func(s *pgen.Spec) {
 						if big {
 							s.LenChoices = []int{0, 1, 2, 9, 10, 11}
